@@ -9,6 +9,7 @@ import AcraModel.CrossClient.TlsIdentity
 import AcraModel.CrossClient.TlsIdentityInj
 import AcraModel.CrossClient.TlsServer
 import AcraModel.CrossClient.TlsConn
+import AcraModel.CrossClient.ServerOps
 import AcraModel.CrossClient.BoxLaws
 import AcraModel.CrossClient.Box45
 import AcraModel.CrossClient.NoPanic
@@ -864,6 +865,95 @@ theorem tls_server_cross_client_chain {c : CryptoOps} (hl : SealLaws c) (hc : Se
   exact tls_server_cross_client hl hc hm hp hs e hia hib hne hnc [some lA.cert, some lB.cert] 0 1 rfl rfl
     (by rw [Extractor.run_eq_map]; simp [ha]) (by rw [Extractor.run_eq_map]; simp [hb]) hown
 
+/-! ## the other RPCs of the gRPC server and the HTTP API run under the identity of the connection -/
+
+/-- the wrapper declares a method for every RPC of the table (none is left to the embedded `Unimplemented…Server`),
+and every RPC of the API – decrypt-type or not – is served by a registration. Regenerated. -/
+theorem fact_all_rpcs_declared_and_served :
+    (∀ r ∈ rpcTable, r.defined = true) ∧
+    (∀ rpc ∈ ["Decrypt", "DecryptSym", "DecryptSearchable", "DecryptSymSearchable", "Encrypt", "EncryptSym", "EncryptSearchable",
+      "EncryptSymSearchable", "GenerateQueryHash", "Tokenize", "Detokenize"], Served rpc) ∧
+    rpcTable.map (·.name) = ["Decrypt", "DecryptSearchable", "DecryptSym", "DecryptSymSearchable", "Detokenize", "Encrypt",
+      "EncryptSearchable", "EncryptSym", "EncryptSymSearchable", "GenerateQueryHash", "Tokenize"] := by decide
+
+/-- **`server_rpc_runs_as_connection`.** On the server `NewServer` builds with `UseConnectionClientID`, EVERY served
+RPC – Tokenize, Detokenize, the Encrypt family and GenerateQueryHash as much as the decrypt family – hands the
+service a request whose client id is the id of the connection, whatever the request named; without a connection
+identity the service is not reached at all. -/
+theorem server_rpc_runs_as_connection {R : Type} {rpc : String} (hs : Served rpc) (svc : Request → R) (e : R) (id x p : Bytes) :
+    serverCall true rpc svc e (some id) ⟨x, p⟩ = svc ⟨id, p⟩ ∧ serverCall true rpc svc e none ⟨x, p⟩ = e :=
+  ⟨serverCall_conn fact_every_registration_wrapped fact_all_rpcs_declared_and_served.1 tls_overrides_all hs svc e id x p,
+   serverCall_noconn fact_every_registration_wrapped fact_all_rpcs_declared_and_served.1 tls_overrides_all rpc svc e ⟨x, p⟩⟩
+
+/-- **Tokens through the server.** After ANY history of Tokenize requests (any connections, naming any client
+ids, any values, any random draws), a Detokenize request over the connection of `b` – naming ANY client id – for
+any token yields the token itself, unchanged, or a value that was tokenized over a CONNECTION whose identity has
+the context digest of `b`. The ids named in the requests play no role. -/
+theorem tls_server_detokenize_cross_client {c : CryptoOps} (ops : List SrvTokOp) (b forged tok r : Bytes) (ty : Nat)
+    (h : serverCall true "Detokenize" (svcDetokenize c (runSrvTok c "Tokenize" [] ops) ty) .err (some b) ⟨forged, tok⟩ = .ok r) :
+    r = tok ∨ ∃ op, op ∈ ops ∧ aggCtx c op.conn = aggCtx c b ∧ op.v = r := by
+  have hT : Served "Tokenize" := fact_all_rpcs_declared_and_served.2.1 _ (by decide)
+  have hD : Served "Detokenize" := fact_all_rpcs_declared_and_served.2.1 _ (by decide)
+  rw [(server_rpc_runs_as_connection hD _ _ b forged tok).1,
+    runSrvTok_eq fact_every_registration_wrapped fact_all_rpcs_declared_and_served.1 tls_overrides_all hT] at h
+  rcases cross_client_detokenize (asTokOps ops) b tok r ty h with h1 | ⟨op, hop, hc, hv⟩
+  · exact Or.inl h1
+  · simp only [asTokOps, List.mem_map] at hop
+    obtain ⟨o, ho, rfl⟩ := hop
+    exact Or.inr ⟨o, ho, hc, hv⟩
+
+/-- **Encrypt-type RPCs.** What an Encrypt / EncryptSym request over the connection of `b` produces – naming ANY
+client id, e.g. `a`'s – is `protect` under `b`'s keys; so whenever `b` can read it back, `a ≠ b` cannot (arbitrary
+fresh key histories): a forged id neither lets `b` write data that looks like `a`'s nor read `a`'s. -/
+theorem tls_server_encrypt_belongs_to_connection {c : CryptoOps} (hl : SealLaws c) (hc : SealCommit c) (hm : MsgCommit c)
+    {pairs syms : History} (hp : Fresh pairs) (hs : Fresh syms) {a b : Bytes} (hab : a ≠ b)
+    (rpc : String) (hrpc : rpc ∈ ["Encrypt", "EncryptSym", "EncryptSearchable", "EncryptSymSearchable"]) (k : Kind) (forged m rnd : Bytes) :
+    serverCall true rpc (svcEncrypt c (storeOf c pairs syms) k rnd) .err (some b) ⟨forged, m⟩ = protect c (storeOf c pairs syms b) k m rnd ∧
+    ∀ p m', serverCall true rpc (svcEncrypt c (storeOf c pairs syms) k rnd) .err (some b) ⟨forged, m⟩ = .ok p →
+      revealAs c (storeOf c pairs syms) b p = .ok m' → revealAs c (storeOf c pairs syms) a p = .err := by
+  have hS : Served rpc := fact_all_rpcs_declared_and_served.2.1 rpc (by
+    simp only [List.mem_cons, List.not_mem_nil, or_false] at hrpc ⊢
+    rcases hrpc with h | h | h | h <;> simp [h])
+  refine ⟨(server_rpc_runs_as_connection hS _ _ b forged m).1, ?_⟩
+  intro p m' _ hb
+  exact cross_client_reveal hl hc hm hp hs (Ne.symm hab) hb
+
+/-- **GenerateQueryHash** over the connection of `b`, naming any client id, is the blind index under `b`'s HMAC
+key – which does not verify under another identity's key unless the HMACs collide (`cross_client_hash`). -/
+theorem tls_server_query_hash_is_connections {c : CryptoOps} (hs : HmacStore) (b forged kb data : Bytes) (hb : hs b = some kb) :
+    serverCall true "GenerateQueryHash" (svcQueryHash c hs) .err (some b) ⟨forged, data⟩ = .ok (generateHash c kb data) := by
+  have hS : Served "GenerateQueryHash" := fact_all_rpcs_declared_and_served.2.1 _ (by decide)
+  rw [(server_rpc_runs_as_connection hS _ _ b forged data).1]
+  simp [svcQueryHash, hb]
+
+/-- **HTTP API: a request cannot name an identity.** For every call of the translator service by an HTTP handler
+the result does not depend on any client id carried in the request: the id is the connection's (or none). -/
+theorem http_request_cannot_name_identity {R : Type} : ∀ row ∈ httpTable, ∀ (svc : Request → R) (conn : ConnId) (x y body : Bytes),
+    httpHandler row svc conn x body = httpHandler row svc conn y body := by
+  intro row hrow svc conn x y body
+  have hf : row.fromConn = true := by
+    simp only [httpTable, List.mem_map] at hrow
+    obtain ⟨t, ht, rfl⟩ := hrow
+    exact fact_http_identity_from_connection t ht
+  exact httpHandler_fromConn row hf svc conn x y body
+
+/-- **HTTP decrypt under another identity.** A decrypt operation of the HTTP API over a TLS connection
+authenticated as `b`, with any client id smuggled into the request, is an error for every stored value `a ≠ b`
+can decrypt. -/
+theorem http_cross_client {c : CryptoOps} (hl : SealLaws c) (hc : SealCommit c) (hm : MsgCommit c)
+    {pairs syms : History} (hp : Fresh pairs) (hs : Fresh syms) {a b : Bytes} (hab : a ≠ b) {k : Kind} {v m : Bytes}
+    (hown : decryptAs c (storeOf c pairs syms) a k v = .ok m) :
+    ∀ row ∈ httpTable, ∀ smuggled : Bytes,
+      httpHandler row (fun r => decryptAs c (storeOf c pairs syms) r.clientId k r.payload) (some b) smuggled v = .err := by
+  intro row hrow smuggled
+  have hf : row.fromConn = true := by
+    simp only [httpTable, List.mem_map] at hrow
+    obtain ⟨t, ht, rfl⟩ := hrow
+    exact fact_http_identity_from_connection t ht
+  unfold httpHandler
+  rw [if_pos hf]
+  exact cross_client_decrypt hl hc hm hp hs hab hown
+
 /-! ## non-vacuity
 
 The hypotheses of the theorems above are jointly satisfiable by concrete, non-trivial instances:
@@ -1070,6 +1160,19 @@ def exBadSite : CertSite := ⟨"", "wrapper.clientIDExtractor.ExtractClientID", 
 example : siteIdentity exBadSite (exExtractor .distinguishedName) exStateA = siteIdentity exBadSite (exExtractor .distinguishedName) exStateB' ∧
     siteIdentity exBadSite (exExtractor .distinguishedName) exStateB = siteIdentity grpcSite (exExtractor .distinguishedName) exStateA ∧
     (siteIdentity exBadSite (exExtractor .distinguishedName) exStateA).isOk = true := by decide
+
+/-- the other RPCs and the HTTP API: the tables are inhabited; a value tokenized over A's connection in a request
+NAMING B comes back to A's connection (naming B again) and stays a token for B's connection naming A; the query
+hash over B's connection naming A is B's; an HTTP handler ignores a smuggled id -/
+def exSrvOps : List SrvTokOp := [⟨exA, exB, [1, 1, 1], 4, [[7, 7, 7]]⟩]
+
+example : httpTable.length = 13 ∧ Served "Tokenize" ∧ ¬ Served "NoSuchRpc" ∧
+    serverCall true "Detokenize" (svcDetokenize boxOps (runSrvTok boxOps "Tokenize" [] exSrvOps) 4) .err (some exA) ⟨exB, [7, 7, 7]⟩ = .ok [1, 1, 1] ∧
+    serverCall true "Detokenize" (svcDetokenize boxOps (runSrvTok boxOps "Tokenize" [] exSrvOps) 4) .err (some exB) ⟨exA, [7, 7, 7]⟩ = .ok [7, 7, 7] ∧
+    serverCall true "Detokenize" (svcDetokenize boxOps (runSrvTok boxOps "Tokenize" [] exSrvOps) 4) .err none ⟨exA, [7, 7, 7]⟩ = .err ∧
+    serverCall true "GenerateQueryHash" (svcQueryHash boxOps (fun id => if id = exB then some [4, 5, 6] else none)) .err (some exB) ⟨exA, exMsg⟩
+      = .ok (generateHash boxOps [4, 5, 6] exMsg) ∧
+    (httpTable.map fun row => httpHandler row (fun r => r.clientId) (some exB) exA []) = List.replicate 13 exB := by decide
 
 /-- the registration table is inhabited; the server ignores a forged id on a concrete RPC of every service -/
 example : registrations.length = 6 ∧
